@@ -20,6 +20,9 @@ import (
 //go:norace
 func TaskNew() int32 {
 	if !active {
+		// a goroutine started outside a run (package initialisation): it cannot be made a
+		// simulated task; the harness asks for the degraded mode when it sees this
+		unmanaged++
 		return -1
 	}
 	i := int32(-1)
@@ -579,3 +582,11 @@ func voluntaryYield() {
 	demote()
 	switchAway(0, EvSwitch)
 }
+
+var unmanaged int
+
+// Unmanaged reports how many goroutines the library started while no run was active
+// (e.g. from an init function). They run outside the simulator's control.
+//
+//go:norace
+func Unmanaged() int { return unmanaged }
